@@ -47,7 +47,7 @@ META = {
         "asyncio semantics as implemented by BaseEventLoop (only clock/selector replaced)",
         "sync tasks run on a fake executor whose completions are explorer events (no real threads)",
     ],
-    "required_counters": ["scenarios", "probe_judged"],
+    "required_counters": ["wiring_cases", "scenarios", "probe_judged"],
     "bounds": {
         "quick": {"A": [1, 2, 3], "history_len": 2, "L1": "over-admission for A in 1..2"},
         "thorough": {"A": [1, 2, 3], "history_len": 3, "L1": "over-admission A in 1..3; leak histories len 1"},
@@ -145,6 +145,10 @@ def scenarios(tier: str) -> List[Dict[str, Any]]:
 
 
 def shards(tier: str, seed: int) -> List[Any]:
+    return _shards(tier, seed) + [[{"wiring": "C03"}]]
+
+
+def _shards(tier: str, seed: int) -> List[Any]:
     scs = scenarios(tier)
     if tier == "thorough":
         mark_stateless(scs, 4, 9)
@@ -167,6 +171,12 @@ def _per(sc: Dict[str, Any], res: Any, acc: Acc) -> None:
 
 
 def run_shard(shard: List[Dict[str, Any]]) -> Dict[str, Any]:
+    if shard and shard[0].get("wiring"):
+        from mc.cli_wiring import check_worker_wiring
+
+        acc = Acc()
+        check_worker_wiring("C03", acc)
+        return acc.as_dict()
     return run_scenarios("C03", shard, C03World, per_scenario=_per).as_dict()
 
 
